@@ -6,5 +6,8 @@ CONSTANTS
   Pools = {2}
   Pars = {FALSE}
   CrashKinds = {"sweep"}
+  BurstSizes = {}
+  BurstHolds = {}
+  BurstForms = {}
 INVARIANT Emit
 CHECK_DEADLOCK FALSE
